@@ -82,7 +82,9 @@ def _css_cases(status_t, tag):
     ]
 
 
-REG.add(Contract(MS, "check_solver_status", "C04", [("status", TStr()), ("raise_error", TBool())],
+_re = TBool()
+_re.default = VBool(False)
+REG.add(Contract(MS, "check_solver_status", "C04", [("status", TStr()), ("raise_error", _re)],
                  _css_cases(TStr(), "str") + _css_cases(TNone(), "none"), key="check_solver_status"))
 
 # ---------------------------------------------------------------- assert_optimal
